@@ -160,37 +160,35 @@ theorem namedAnchor_some {q : Q} {s : SrcAnchor} {a : NA} (h : namedAnchor q s =
   unfold namedAnchor at h
   split at h
   · simp at h
-  · split at h
-    · simp at h
-    · cases hp : parseAnchor s.name.toList with
-      | error e => rw [hp] at h; simp at h
-      | ok p =>
-        rw [hp] at h; simp only at h
-        split at h
-        · simp at h
-        · rename_i hc
-          simp only [Bool.or_eq_true, not_or, Bool.not_eq_true, Bool.and_eq_true, not_and] at hc
-          simp only [Except.ok.injEq, Option.some.injEq] at h; subst h
-          obtain ⟨s0, s1, s2, s3⟩ := parseAnchor_shapeX hp hc.2
-          refine ⟨rfl, rfl, rfl, ⟨?_, ?_, ?_⟩, ?_, ?_⟩ <;> simp only [String.toList_ofList]
-          · exact s1
-          · exact s2
-          · exact s3
-          · intro hnone
-            cases hpc : p.ctx with
-            | false => rw [← s0, hpc]
-            | true =>
-              rw [hpc] at hnone
-              simp only [if_true] at hnone
-              have := hc.1 hpc
-              rw [hnone] at this; simp at this
-          · intro c hsome
-            cases hpc : p.ctx with
-            | false => rw [hpc] at hsome; simp at hsome
-            | true =>
-              rw [hpc] at hsome
-              simp only [if_true] at hsome
-              exact ⟨by rw [← s0, hpc], hsome⟩
+  · cases hp : parseAnchor s.name.toList with
+    | error e => rw [hp] at h; simp at h
+    | ok p =>
+      rw [hp] at h; simp only at h
+      split at h
+      · simp at h
+      · rename_i hc
+        simp only [Bool.or_eq_true, not_or, Bool.not_eq_true, Bool.and_eq_true, not_and] at hc
+        simp only [Except.ok.injEq, Option.some.injEq] at h; subst h
+        obtain ⟨s0, s1, s2, s3⟩ := parseAnchor_shapeX hp hc.2
+        refine ⟨rfl, rfl, rfl, ⟨?_, ?_, ?_⟩, ?_, ?_⟩ <;> simp only [String.toList_ofList]
+        · exact s1
+        · exact s2
+        · exact s3
+        · intro hnone
+          cases hpc : p.ctx with
+          | false => rw [← s0, hpc]
+          | true =>
+            rw [hpc] at hnone
+            simp only [if_true] at hnone
+            have := hc.1 hpc
+            rw [hnone] at this; simp at this
+        · intro c hsome
+          cases hpc : p.ctx with
+          | false => rw [hpc] at hsome; simp at hsome
+          | true =>
+            rw [hpc] at hsome
+            simp only [if_true] at hsome
+            exact ⟨by rw [← s0, hpc], hsome⟩
 
 theorem namedAnchor_plain_shape {q : Q} {s : SrcAnchor} {a : NA} (h : namedAnchor q s = .ok (some a))
     (hc : a.ctx = none) : NAShape a := by
@@ -199,10 +197,10 @@ theorem namedAnchor_plain_shape {q : Q} {s : SrcAnchor} {a : NA} (h : namedAncho
   unfold NAShape
   rw [← this]; exact sh
 
-theorem namedAnchor_of_parse {q : Q} {s : SrcAnchor} {p : Parsed} (hne : s.name ≠ "") (hid : s.idNoLib = false)
+theorem namedAnchor_of_parse {q : Q} {s : SrcAnchor} {p : Parsed} (hne : s.name ≠ "")
     (hp : parseAnchor s.name.toList = .ok p) (hc : p.ctx = false) (hi : keyIgnorable p.key = false) :
     namedAnchor q s = .ok (some ⟨s.name, quantize q s.x, quantize q s.y, p.isMark, String.ofList p.key, p.number, none⟩) := by
-  simp [namedAnchor, hne, hid, hp, hc, hi]
+  simp [namedAnchor, hne, hp, hc, hi]
 
 /-! ### one glyph -/
 theorem glyphAnchors_ok {q : Q} {srcs : List SrcAnchor} {as : List NA} (h : glyphAnchors q srcs = .ok as) :
